@@ -5,6 +5,7 @@ EXTENDS Store
 
 TTLsSmall == {0, 1, -1}
 TTLsWide  == {0, 1, 2, -1, -2}
+TTLsZero  == {0}             \* no per-call TTL at all: with UnlimitedTTL nothing ever carries an expiry
 TTLsJan   == {0, 2, -1, -5}    \* real-clock runs: fresh / just expired / expired longer than DeleteExpiredAfter
 
 HashInj  == [k \in Keys |-> k]
